@@ -384,6 +384,40 @@ async def one_run(loop, ctx, cmdset, mode, order=None):
                 outs[idx].append(oc)
             results = outs
         await rig.settle()
+        # at quiescence every session that still has a mailbox selected synchronises once more: the number of
+        # messages it can then address must be the size of the view it has been told about (C01's view monitor)
+        for s_ in list(rig.sessions):
+            if s_.name.startswith(("Z", "O")) or not hasattr(s_, "view_n") or s_.view_n is None or s_.writer.closed or s_.name in rig.bye_sessions or getattr(s_, "idling", False):
+                continue
+            try:
+                rn = await s_.cmd("NOOP")
+                if any(x.kind == "status" and x.status == "BYE" for x in rn.responses):
+                    rig.bye_sessions.add(s_.name)  # (its mailbox was removed by another session's command)
+                    continue
+                if rn.status != "OK" or not s_.view_n:
+                    continue
+                belief = list(s_.view_flags) if s_.view_flags is not None else None
+                rf = await s_.cmd("FETCH 1:* (UID FLAGS)")
+                if any(x.kind == "status" and x.status == "BYE" for x in rf.responses):
+                    rig.bye_sessions.add(s_.name)
+                    continue
+                if rf.status == "OK":
+                    rig.counts["final_view_size_checks"] += 1
+                    got_n = len({n for n, d in rf.fetches() if "UID" in d})
+                    if got_n != s_.view_n:
+                        s_.view_errors.append(f"{s_.name}: at quiescence the session was told of {s_.view_n} messages, FETCH 1:* answers for {got_n}")
+                    elif belief is not None and len(belief) == got_n:
+                        # what the session has been told about each position's flags is what FETCH says now (C04)
+                        for n, d in rf.fetches():
+                            b_ = belief[n - 1] if 1 <= n <= len(belief) else None
+                            if b_ is None or "FLAGS" not in d:
+                                continue
+                            rig.counts["final_flag_belief_checks"] += 1
+                            now = sorted(str(f) for f in d["FLAGS"] if str(f) not in ("\\Recent", "unseen"))
+                            if now != b_[0]:
+                                s_.view_errors.append(f"flags: {s_.name}: position {n} (uid {d.get('UID')}): the session was last told {b_[0]} (uid {b_[1]}), at quiescence FETCH says {now}; transcript: {[l[:90] for l in s_.log[-40:]]}")
+            except Exception:
+                rig.counts["final_view_check_failed"] += 1
         fs = await final_state(rig)
         info["watchdog"] = len(rig.watchdog_hits)
         info["wire"] = len(rig.wire_errors)
@@ -409,6 +443,8 @@ async def one_run(loop, ctx, cmdset, mode, order=None):
         info["uid_cid_pairs"] = pairs
         info["uid_fetch_log"] = getattr(rig, "uidfetch_log", [])
         info["view_events"] = rig.counts.get("view_monitor_events", 0)
+        info["final_view_checks"] = rig.counts.get("final_view_size_checks", 0)
+        info["final_flag_belief_checks"] = rig.counts.get("final_flag_belief_checks", 0)
         return results, fs, info
     finally:
         try:
